@@ -1,4 +1,3 @@
-use std::cmp::max;
 use std::fmt;
 
 use crate::common::position::{CaretPos, Position};
@@ -11,15 +10,16 @@ pub struct Lex {
 
 impl Lex {
     pub fn new(start: CaretPos, token: Token) -> Self {
-        let end = if let Token::Str(_str, _) = &token {
-            start.offset_line(max((_str.lines().count() as i32 - 1) as usize, 0))
-        } else if let Token::DocStr(_str) = &token {
-            start.offset_line(max((_str.lines().count() as i32 - 1) as usize, 0))
-        } else {
-            start
+        // The end is one past the last character of the token's source text,
+        // which for (doc)strings may span several lines.
+        let text = token.to_string();
+        let end = match text.rfind('\n') {
+            Some(last_nl) => CaretPos::new(
+                start.line + text.matches('\n').count(),
+                text[last_nl + 1..].chars().count() + 1,
+            ),
+            None => start.offset_pos(token.width()),
         };
-
-        let end = end.offset_pos(token.clone().width());
         let pos = Position { start, end };
         Lex { pos, token }
     }
@@ -136,7 +136,7 @@ pub enum Token {
 
 impl Token {
     pub fn width(&self) -> usize {
-        self.to_string().len()
+        self.to_string().chars().count()
     }
 
     pub fn same_type(left: &Token, right: &Token) -> bool {
@@ -187,7 +187,7 @@ impl fmt::Display for Token {
             Token::Int(int) => write!(f, "{int}"),
             Token::ENum(base, exp) => write!(f, "{base}E{exp}"),
             Token::Str(string, _) => write!(f, "\"{string}\""),
-            Token::DocStr(docstr) => write!(f, "##{docstr}"),
+            Token::DocStr(docstr) => write!(f, "\"\"\"{docstr}\"\"\""),
 
             Token::Range => write!(f, ".."),
             Token::RangeIncl => write!(f, "..="),
